@@ -594,7 +594,7 @@ enum cc_stat cc_deque_copy_shallow(CC_Deque const * const deque, CC_Deque **out)
     copy_buffer(deque, copy->buffer, NULL);
 
     copy->first = 0;
-    copy->last  = copy->size;
+    copy->last  = copy->size & (copy->capacity - 1);
 
     *out = copy;
     return CC_OK;
@@ -636,7 +636,7 @@ enum cc_stat cc_deque_copy_deep(CC_Deque const * const deque, void *(*cp) (void*
     copy_buffer(deque, copy->buffer, cp);
 
     copy->first = 0;
-    copy->last  = copy->size;
+    copy->last  = copy->size & (copy->capacity - 1);
 
     *out = copy;
 
@@ -672,7 +672,7 @@ enum cc_stat cc_deque_trim_capacity(CC_Deque *deque)
 
     deque->buffer   = new_buff;
     deque->first    = 0;
-    deque->last     = deque->size;
+    deque->last     = deque->size & (new_size - 1);
     deque->capacity = new_size;
     return CC_OK;
 }
